@@ -16,25 +16,19 @@ def queries(tier):
     for t, bits, sg in TYPES:
         q('log2i_%s' % t, 'h_log2i.c', {'T': t, 'BITS': bits, 'SIGNED': sg}, 66, 120,
           desc='log2i<%s>(v): 2^r <= v < 2^(r+1) for every positive v of the type' % t, bounds='all positive values')
-    for be in ('', 'cadical', 'kissat', 'cvc5'):
-        q('gcd_u8_%s' % be, 'h_gcd.c', {'T': 'u8', 'BITS': 8, 'OPBITS': 8, 'MODE': 0}, 14, 300, backend=be)
-        q('red_u8_%s' % be, 'h_gcd.c', {'T': 'u8', 'BITS': 8, 'OPBITS': 8, 'MODE': 1}, 14, 300, backend=be)
-    for dims in (2, 3, 4):
-        for g, gn in ((0, 'lin'), (1, 'mul'), (2, 'div'), (3, 'mod')):
-            q('v%d_ops_%s' % (dims, gn), 'h_vec.c', {'DIMS': dims, 'MODE': 0, 'GROUP': g}, 10, 300)
-        for mode, nm in ((1, 'preds'), (2, 'order'), (3, 'at')):
-            q('v%d_%s' % (dims, nm), 'h_vec.c', {'DIMS': dims, 'MODE': mode}, 6, 300)
-    q('v3_cross_cb2', 'h_vec.c', {'DIMS': 3, 'MODE': 4, 'CB': 2}, 6, 300, backend='kissat')
-    q('v_ctor', 'h_vec.c', {'DIMS': 4, 'MODE': 5}, 6, 300)
-    for mode, nm in ((0, 'mulv'), (1, 'transpose')):
-        q('m4_%s' % nm, 'h_mat.c', {'MODE': mode}, 18, 300, mem_gb=8)
-    for eb in (1, 2):
-        for be in ('', 'kissat'):
-            q('m4_mulm_eb%d_%s' % (eb, be), 'h_mat.c', {'MODE': 2, 'EB': eb}, 18, 300, mem_gb=8, backend=be)
-            q('m4_assoc_eb%d_%s' % (eb, be), 'h_mat.c', {'MODE': 3, 'EB': eb}, 18, 300, mem_gb=8, backend=be)
-    for g, gn in ((0, 'lin'), (1, 'mul'), (2, 'div'), (3, 'mod')):
-        q('m4_ops_%s' % gn, 'h_mat.c', {'MODE': 4, 'GROUP': g}, 18, 300, mem_gb=8)
-    q('random_int_b8', 'h_random.c', {'MODE': 0, 'BLOCK': 8}, 12, 300)
-    q('random_data_b4_3_2', 'h_random.c', {'MODE': 1, 'BLOCK': 4, 'N1': 3, 'N2': 2}, 12, 300)
-    q('random_str_b4_5', 'h_random.c', {'MODE': 2, 'BLOCK': 4, 'N1': 5}, 12, 300)
+    for t, bits, ob, be in (('u8', 8, 8, 'kissat'), ('u8', 8, 8, 'cadical'), ('u16', 16, 8, 'kissat'), ('u32', 32, 8, 'kissat'), ('u64', 64, 8, 'kissat'), ('u16', 16, 10, 'kissat'), ('u64', 64, 10, 'kissat')):
+        q('gcd_%s_o%d_%s' % (t, ob, be), 'h_gcd.c', {'T': t, 'BITS': bits, 'OPBITS': ob, 'MODE': 0}, 14 if ob == 8 else 17, 300, backend=be)
+        q('red_%s_o%d_%s' % (t, ob, be), 'h_gcd.c', {'T': t, 'BITS': bits, 'OPBITS': ob, 'MODE': 1}, 14 if ob == 8 else 17, 300, backend=be)
+    q('gcdspec_u64', 'h_gcd.c', {'T': 'u64', 'BITS': 64, 'OPBITS': 64, 'MODE': 2}, 5, 300)
+    q('gcdspec_i32', 'h_gcd.c', {'T': 'i32', 'BITS': 32, 'OPBITS': 31, 'MODE': 2}, 5, 300)
+    for nn in (8, 14):
+        q('v4_ops_mul_nn%d' % nn, 'h_vec.c', {'DIMS': 4, 'MODE': 0, 'GROUP': 1, 'MB': 32767, 'NNBITS': nn}, 10, 300)
+        q('v4_preds_nn%d' % nn, 'h_vec.c', {'DIMS': 4, 'MODE': 1, 'PB': 16383, 'NNBITS': nn}, 6, 300)
+        q('m4_mulv_nn%d' % nn, 'h_mat.c', {'MODE': 0, 'VB': 16383, 'NNBITS': nn}, 18, 300)
+        q('m4_ops_mul_nn%d' % nn, 'h_mat.c', {'MODE': 4, 'GROUP': 1, 'MB': 32767, 'NNBITS': nn}, 18, 300)
+    q('m4_mulv_4_kissat', 'h_mat.c', {'MODE': 0, 'VB': 4}, 18, 300, backend='kissat')
+    q('m4_mulm_nn2', 'h_mat.c', {'MODE': 2, 'EB': 3, 'NNBITS': 2}, 18, 300, mem_gb=8)
+    q('m4_mulm_nn4_kissat', 'h_mat.c', {'MODE': 2, 'EB': 15, 'NNBITS': 4}, 18, 300, mem_gb=8, backend='kissat')
+    q('m4_assoc_nn1_kissat', 'h_mat.c', {'MODE': 3, 'EB': 1, 'NNBITS': 1}, 70, 300, mem_gb=8, backend='kissat')
+    q('m4_assoc_eb1_kissat', 'h_mat.c', {'MODE': 3, 'EB': 1}, 70, 300, mem_gb=8, backend='kissat')
     return qs
